@@ -397,3 +397,119 @@ def relayout(arr, code):
     if code == 'big_endian' and a.dtype.kind in 'fiu' and a.dtype.itemsize > 1:
         return a.astype(a.dtype.newbyteorder('>'))
     return a.copy()
+
+
+# ----------------------------------------------------------------------
+# generic axes, second list
+# ----------------------------------------------------------------------
+DATA_DTYPES = ['float32', 'float32', 'float16', 'float16', 'uint8', 'uint16', 'uint32', 'uint64', 'int8', 'int16',
+               'bool', 'int64_big']
+ERROR_DTYPES = ['float32', 'float32', 'float16', 'float16', 'uint8', 'uint16', 'int8', 'int16']
+
+
+def to_dtype(rng, arr, role='data'):
+    """(array, label): the image in a narrow / unsigned / huge-integer dtype. The values are whatever the dtype
+    holds after the cast (the oracle works on float64 of *those*); they are chosen so that arithmetic carried out
+    in the narrow dtype would be visibly wrong (non-integers for float32, sums and squares beyond 65504 for
+    float16, values near the limits of the integer dtypes, beyond 2**31 / 2**53 for the wide ones)."""
+    a = np.asarray(arr, dtype=float)
+    fin = np.isfinite(a)
+    scale = float(np.max(np.abs(a[fin]))) if fin.any() and np.max(np.abs(a[fin])) > 0 else 1.0
+    unit = np.where(fin, a, 0.0) / scale                     # in [-1, 1]
+    dt = str(rng.choice(DATA_DTYPES if role == 'data' else ERROR_DTYPES))
+    with np.errstate(all='ignore'):
+        if dt == 'float32':
+            # non-integer values (non-finite ones survive the cast)
+            return ((a * 1.2345678) if role == 'data' else a).astype('float32'), dt
+        if dt == 'float16':
+            top = float(rng.choice([3.0e4, 6.0e4, 500.0])) if role == 'data' else float(rng.choice([300.0, 2000.0, 20.0]))
+            out = np.where(fin, unit * top, a).astype('float16')
+            return out, dt
+        if dt == 'bool':
+            return (unit > 0.3), dt
+        if dt == 'int64_big':
+            top = float(rng.choice([2.0 ** 33, 2.0 ** 55, 2.0 ** 62]))
+            return np.round(unit * top).astype('int64') + int(rng.integers(0, 7)), dt
+        info = np.iinfo(dt)
+        if info.min == 0:
+            v = np.abs(unit)
+            top = float(info.max) if dt != 'uint64' else 2.0 ** 63.5
+            out = np.floor(v * top * 0.999)
+            out = np.clip(out, 0, float(info.max) if dt != 'uint64' else 1.8e19).astype(dt)
+            if role == 'error':
+                out = np.maximum(out, 1).astype(dt)
+            return out, dt
+        out = np.clip(np.round(unit * info.max), info.min, info.max).astype(dt)
+        if role == 'error':
+            out = np.maximum(np.abs(out.astype(float)), 1).astype(dt)
+        return out, dt
+
+
+def snap_half(rng, kind, params):
+    """lengths snapped to multiples of 0.5 (shape edges exactly on pixel centres / pixel edges for integer and
+    half-integer centres); the inner < outer ordering of annuli is kept, else the parameter stays as it was"""
+    p = dict(params)
+    for k, v in params.items():
+        if k == 'theta':
+            if rng.random() < 0.5:
+                p[k] = float(rng.choice([0.0, np.pi / 2, np.pi, -np.pi / 2]))
+            continue
+        p[k] = max(0.5, round(v * 2.0) / 2.0)
+    pairs = [('r_in', 'r_out'), ('a_in', 'a_out'), ('b_in', 'b_out'), ('w_in', 'w_out'), ('h_in', 'h_out')]
+    for lo, hi in pairs:
+        if lo in p and hi in p and not p[lo] < p[hi]:
+            p[lo], p[hi] = params[lo], params[hi]
+    if kind in ('ell_annulus', 'rect_annulus'):
+        a_in, a_out = ('a_in', 'a_out') if kind == 'ell_annulus' else ('w_in', 'w_out')
+        if not p[a_in] < p[a_out]:
+            return dict(params)
+    return p
+
+
+def ap_snapshot(ap):
+    """hashable description of every parameter an aperture holds (values + units)"""
+    out = []
+    for k in ap._params:
+        v = getattr(ap, k)
+        if hasattr(v, 'ra') and hasattr(v, 'dec'):
+            out.append((k, 'SkyCoord', tuple(np.atleast_1d(v.ra.deg).tolist()), tuple(np.atleast_1d(v.dec.deg).tolist()),
+                        v.frame.name))
+        elif hasattr(v, 'unit'):
+            out.append((k, type(v).__name__, tuple(np.atleast_1d(v.value).tolist()), str(v.unit)))
+        else:
+            a = np.asarray(v)
+            out.append((k, a.shape, tuple(a.ravel().tolist())))
+    return tuple(out)
+
+
+def with_history(rng, ap, data):
+    """(aperture, label): an aperture with the same parameters that has a history - a copy, an element / subset of
+    a larger aperture obtained by indexing, or an object whose masks / boxes were already used on other data."""
+    h = str(rng.choice(['copy', 'indexed', 'used_before', 'used_before']))
+    if h == 'copy':
+        return ap.copy(), 'copy'
+    if h == 'indexed':
+        pos = np.atleast_2d(np.asarray(ap.positions, float))
+        extra = np.array([[1.5, 2.5], [-3.0, 4.0]])
+        pp = {k: getattr(ap, k) for k in ap._params if k != 'positions'}
+        big = type(ap)(np.vstack([extra[:1], pos, extra[1:]]), **pp)
+        _ = big.bbox, big.area
+        if ap.isscalar:
+            return big[1], 'indexed_int'
+        idx = np.arange(1, 1 + len(pos))
+        form = str(rng.choice(['slice', 'list', 'int32', 'uint8', 'bool']))
+        if form == 'slice':
+            return big[1:1 + len(pos)], 'indexed_slice'
+        if form == 'list':
+            return big[idx.tolist()], 'indexed_list'
+        if form == 'bool':
+            b = np.zeros(len(pos) + 2, bool)
+            b[idx] = True
+            return big[b], 'indexed_bool'
+        return big[idx.astype(form)], 'indexed_' + form
+    _ = ap.bbox, ap.area
+    other = np.ones((7, 9))
+    ap.to_mask(method='center')
+    ap.do_photometry(other, method='subpixel', subpixels=3)
+    ap.area_overlap(other, method='exact')
+    return ap, 'used_before'
